@@ -118,6 +118,14 @@ def enumerated(th, tier):
         big = un + vn > 30000
         for cu, cv in ([('ones', 'ones')] if big else [('rand', 'rand'), ('ones', 'ones'), ('ones', 'bit')]):
             S.append(('mpn_mul', un, vn, cu, cv)); S.append(('fft_main', un, vn, cu, cv))
+    # (5b) the matrix-Fourier (MFA) variant of the FFT only starts at products of about 65200 limbs; its pointwise multiplications are the only place
+    # where mpn_mulmod_Bexpp1 sees coefficients equal to -1 mod B^n+1, which needs single-bit / 2^k+-1 operands, never random ones (A87)
+    for i in range(10 if q else 60):
+        un = 33000 + 977 * i + (i * i * 131) % 9000; vn = 32700 + 613 * i
+        for cu, cv in ([('bit', 'rand'), ('bit', 'ones'), ('bit', 'bit')] if q else [('bit', 'rand'), ('bit', 'ones'), ('bit', 'bit'), ('bitpm', 'rand'), ('bitpm', 'bitpm')]):
+            S.append(('mpn_mul', max(un, vn), min(un, vn), cu, cv))
+        S.append(('mpn_sqr', un, 'bit'))
+        S.append(('mpn_mul', 2 * un, vn // 2 + 1000, 'bit', 'runs'))
     # direct fft entry at smaller sizes: every shape it accepts from its own minimum
     for n1 in ([40, 64, 100, 130, 200, 257, 400, 700, 1025, 1500, 2100, 3000] if q else gen.ladder(34, 3400, 1.12)):
         for n2 in sorted({n1, max(1, n1 // 2), max(1, n1 // 5) + 1, n1 - 1}):
@@ -310,6 +318,8 @@ def post(tier, agg, cov):
     cov['regimes_observed'] = {HOOKS[k]: hits.get(k, 0) for k in HOOKS}
     cov['fft_parameters_observed'] = sorted({(e[0], e[1], e[2]) for e in agg.get('evts', []) if e[0] in (20, 21)})
     missing = [HOOKS[k] for k in HOOKS if not hits.get(k)]
+    if not any(e[0] == 21 for e in agg.get('evts', [])): missing.append('fft matrix-Fourier (MFA) variant')
+    if not any(e[0] == 20 for e in agg.get('evts', [])): missing.append('fft truncated variant')
     if missing: return {'inconclusive': 'mpn_mul dispatch arms never reached (hook counters zero): %s' % missing}
 
 if __name__ == '__main__':
